@@ -62,10 +62,13 @@ impl Monitor for C13 {
         let e = epoch(h);
         let legacy_stake = refstf::stake_regime_legacy(w.net, h);
         let legacy_lock = refstf::lock_regime_legacy(w.net, h);
-        if legacy_stake || legacy_lock {
+        if legacy_stake {
             st.exclude("legacy-staking-regime-height");
             return Ok(());
         }
+        // between 500 000 and 900 000 on mainnet/testnet stake documents are registered but the lock is not enforced
+        // (bug compatibility): registration is followed, the two lock verdicts are not judged
+        let lock_enforced = !legacy_lock;
         // stakes declared in this batch that satisfy the registration rule
         let mut new_ok: BTreeMap<TxHash, StakeDoc> = BTreeMap::new();
         for tx in ob.txs.iter().filter(|t| t.kind == TxKind::Stake) {
@@ -100,7 +103,10 @@ impl Monitor for C13 {
         }
         match ob.outcome {
             O::Ok(()) => {
-                if let Some((txh, end)) = locked_attempt {
+                if let (Some(_), false) = (locked_attempt, lock_enforced) {
+                    st.class("staked-coin-spent-in-the-legacy-lock-window");
+                }
+                if let (Some((txh, end)), true) = (locked_attempt, lock_enforced) {
                     let when = if new_ok.contains_key(&txh) { "in-the-registering-batch" } else if e == end { "in-its-end-epoch" } else { "before-its-end-epoch" };
                     viol!(
                         format!("staked-coin-spent-while-locked-{}", when),
@@ -143,7 +149,7 @@ impl Monitor for C13 {
                 }
             }
             O::Rejected(err) => {
-                if err.contains("CoinLocked") && locked_attempt.is_none() {
+                if lock_enforced && err.contains("CoinLocked") && locked_attempt.is_none() {
                     // every input that is a stake's first output is past its end epoch: the lock must be gone.
                     // (non-first outputs of staking transactions are locked by the implementation, unspecified by the property)
                     let non_first = ob.txs.iter().any(|t| {
@@ -367,7 +373,7 @@ pub fn run(ctx: &Ctx) -> (Outcome, String, Option<bool>) {
             r
         },
     ));
-    let rule = "Second phase, stake lifecycles by construction: funds, 1-3 stake transactions, then 3-7 rounds of (jump to the last block of the current epoch, cross it honestly, a batch of ordinary transactions aimed at the staked coins and further stakes, seal), so that every registered stake is attacked before its start, while active, in its end epoch and after it. First phase: generated histories on Custom02/Custom08 from genesis and on Testnet/Mainnet started above the legacy heights (jump to the TIP-906 barrier, honest crossing, jump to 979 000), with 30% stake transactions whose documents cover start <,=,> current epoch, end <,=,> start, end = u64::MAX, amount equal / off by one, undecodable data, plus genesis stakes; ordinary transactions then pick inputs at random from a wallet that keeps the staked coins, so spends of a stake's first output are attempted in the registering batch, the same block, later blocks and - through 2-5 inserted jumps to the last block of an epoch followed by honest blocks - in later epochs, including the end epoch and the one after. Oracle: registered (post-state stake set) => first output is SYM equal to the declared amount, start > epoch, end > start; an accepted batch never spends the first output of a registered stake while epoch <= its end field (also not in the registering batch); a batch rejected as 'locked' although all stake outputs it touches are past their end epoch is a violation; after every seal, votes(e, key) and total_votes(e) for the five epochs from the current one equal the sums over registered stakes with start <= e < end, and stakes_hash equals the root rebuilt from exactly the registered stakes with end >= current epoch. Non-trivial = a history in which a registered stake's first output is targeted in >=2 different epochs; distinct by (document epochs, attempt list).".to_string();
+    let rule = "Second phase (45 % on testnet/mainnet; a third of those start a few blocks below height 900 000, where stakes are registered but not yet locked, and carry their stakes across the switch), stake lifecycles by construction: funds, 1-3 stake transactions, then 3-7 rounds of (jump to the last block of the current epoch, cross it honestly, a batch of ordinary transactions aimed at the staked coins and further stakes, seal), so that every registered stake is attacked before its start, while active, in its end epoch and after it. First phase: generated histories on Custom02/Custom08 from genesis and on Testnet/Mainnet started above the legacy heights (jump to the TIP-906 barrier, honest crossing, jump to 979 000), with 30% stake transactions whose documents cover start <,=,> current epoch, end <,=,> start, end = u64::MAX, amount equal / off by one, undecodable data, plus genesis stakes; ordinary transactions then pick inputs at random from a wallet that keeps the staked coins, so spends of a stake's first output are attempted in the registering batch, the same block, later blocks and - through 2-5 inserted jumps to the last block of an epoch followed by honest blocks - in later epochs, including the end epoch and the one after. Oracle: registered (post-state stake set) => first output is SYM equal to the declared amount, start > epoch, end > start; an accepted batch never spends the first output of a registered stake while epoch <= its end field (also not in the registering batch); a batch rejected as 'locked' although all stake outputs it touches are past their end epoch is a violation; after every seal, votes(e, key) and total_votes(e) for the five epochs from the current one equal the sums over registered stakes with start <= e < end, and stakes_hash equals the root rebuilt from exactly the registered stakes with end >= current epoch. Non-trivial = a history in which a registered stake's first output is targeted in >=2 different epochs; distinct by (document epochs, attempt list).".to_string();
     (out, rule, None)
 }
 
@@ -376,6 +382,8 @@ pub fn profile2() -> Profile {
     p2.seed_funds = true;
     p2.net_w = [50, 20, 20, 10, 0, 0, 0, 0, 0];
     p2.p_mut = 3;
+    p2.net_w = [40, 15, 25, 20, 0, 0, 0, 0, 0];
+    p2.stake_window_start = true;
     p2
 }
 
